@@ -7,7 +7,8 @@ From Coq Require Import List Arith.
 From LF Require Import Misc.Solver Misc.SolverSem.
 
 Section C17.
-  Context {num : Type} (SO : sops (num:=num)) (value : assign -> num) (gradient : assign -> assign).
+  Context {num : Type} (SO : sops (num:=num)) (value : assign (num:=num) -> num)
+          (gradient : assign (num:=num) -> assign (num:=num)).
 
   (* the returned residual is the expression at the evaluator's final assignment,
      which holds the returned values for the solved variables and the loaded
